@@ -1,6 +1,6 @@
 (** Extraction of the C14 specification (monitor) and the L1 effect model (ExtrOcamlBasic only). *)
-Require Import H4.ROSpec H4.ROModel.
+Require Import H4.ROSpec H4.ROModel H4.SDModel.
 Require Extraction.
 Require ExtrOcamlBasic.
 Extraction "../extract/gen/ro_spec.ml" ROSpec.step ROSpec.init ROSpec.clause_code ROSpec.is_mutator.
-Extraction "../extract/gen/ro_model.ml" ROModel.step ROModel.hopen_existing ROModel.mutating ROModel.f_open.
+Extraction "../extract/gen/ro_model.ml" ROModel.step ROModel.hopen_existing ROModel.mutating ROModel.f_open SDModel.sd_step SDModel.sdstart SDModel.sd_mutating SDModel.s_open.
